@@ -74,7 +74,7 @@ class ExactModel(gpytorch.models.ExactGP):
         base = K.ScaleKernel(K.RBFKernel(batch_shape=bs, lengthscale_prior=shared or (P.GammaPrior(2.0, 3.0) if "ls" in priors else None)),
                              batch_shape=bs, outputscale_prior=shared or (P.SmoothedBoxPrior(0.1, 4.0) if "os_box" in priors else
                                                                           P.HalfCauchyPrior(1.5) if "os" in priors else None))
-        if fam in ("exact", "fixednoise", "fixednoise_learn"):
+        if fam in ("exact", "fixednoise", "fixednoise_learn", "fwdkw"):
             self.covar_module = base
         elif fam == "kiss":
             self.covar_module = K.ScaleKernel(K.GridInterpolationKernel(K.RBFKernel(), grid_size=10, grid_bounds=[(-0.6, 1.6)] * d))
@@ -116,8 +116,10 @@ class ExactModel(gpytorch.models.ExactGP):
         else:
             raise AssertionError(fam)
 
-    def forward(self, x):
+    def forward(self, x, scale=None):
         m, c = self.mean_module(x), self.covar_module(x)
+        if scale is not None:  # a keyword argument of forward() that changes the prior (family "fwdkw")
+            m, c = m + (scale - 1.0), c * scale
         if self.fam.startswith("multitask"):
             return MultitaskMultivariateNormal(m, c)
         return MultivariateNormal(m, c)
